@@ -78,7 +78,7 @@
 
     // ---- the ~60 call sites in the VM and the argument converters are G-VM: BOUNDED native stand-in on the real
     // engine over a set of use sites x 4 modes x {missing, present} contexts
-//# ob name=undef_vm_native role=native_bounded fn=vm::eval_impl+value::argtypes kind=bounded bound="30 template use sites of a possibly-undefined name (print, iterate, truth tests in if/and/or/not/ternary, attribute, item, slice, in, ~, +, filter argument, test, default, call argument, set, macro argument) x 4 undefined behaviours x {name missing, name present}" stmt="the documented matrix at the level of rendered templates, and monotonicity: a template that renders under a stricter mode renders to the identical output under every weaker mode; is defined / is undefined / default never fail"
+//# ob name=undef_vm_native role=native_bounded fn=vm::eval_impl+value::argtypes kind=bounded bound="10 ways an undefined comes about (missing name / attribute / item / namespace attribute / out-of-range index / attribute of a scalar / silent undefined of an else-less inline if) x 18 use sites x 3 environment variants (default, custom formatter installed, HTML auto-escape) x 4 modes, and 30 template use sites of a possibly-undefined name (print, iterate, truth tests in if/and/or/not/ternary, attribute, item, slice, in, ~, +, filter argument, test, default, call argument, set, macro argument) x 4 undefined behaviours x {name missing, name present}" stmt="the documented matrix at the level of rendered templates, and monotonicity: a template that renders under a stricter mode renders to the identical output under every weaker mode; is defined / is undefined / default never fail"
     fn undef_vm_native() {
         use crate::{Environment, UndefinedBehavior as UB};
         let modes = [UB::Strict, UB::SemiStrict, UB::Lenient, UB::Chainable];
@@ -149,5 +149,43 @@
             for i in 0..4 { for j in i..4 {
                 if let Some(a) = &outs[i] { match &outs[j] { Some(b) => assert!(a == b, "{src}: output differs between modes"), None => panic!("{src}: weaker mode failed") } }
             }}
+        }
+        // every way an undefined value comes about x every kind of use site x environment variants (the matrix does not
+        // depend on where the undefined came from, on a custom formatter being installed, or on auto-escaping)
+        let normal_sources = ["x", "other.nope", "other['nope']", "ns.nope", "[1][5]", "'abc'[7]", "other.a.b"];
+        let silent_sources = ["(1 if false)", "(other if false)"]; // the silent undefined of an else-less inline if
+        // (site, mask for an ordinary undefined, mask for the silent undefined)
+        let use_sites: &[(&str, u8, u8)] = &[
+            ("{{ U }}", 0b0011, 0), ("[{{ U }}]{{ 1 }}", 0b0011, 0), ("{% for i in U %}{{ i }}{% endfor %}", 0b0011, 0), ("{% if U %}y{% else %}n{% endif %}", 0b0001, 0),
+            ("{{ U.y }}", 0b0111, 0b0111), ("{{ U['y'] }}", 0b0111, 0b0111), ("{{ U.y is undefined }}", 0b0111, 0b0111), ("{{ U.y|default('d') }}", 0b0111, 0b0111),
+            ("{% if U.y %}y{% else %}n{% endif %}", 0b0111, 0b0111), ("{% set q = U %}{{ q.y }}", 0b0111, 0b0111), ("{% set q = U %}{{ q['y'] is defined }}", 0b0111, 0b0111),
+            ("{{ U is defined }}", 0, 0), ("{{ U is undefined }}", 0, 0), ("{{ U|default('d') }}", 0, 0), ("{{ U ~ 'a' }}", 0b0011, 0), ("{{ U|upper }}", 0b0011, 0), ("{{ 1 in U }}", 0b0011, 0),
+            ("{% macro show(a) %}{{ a }}{% endmacro %}{{ show(U) }}", 0b0011, 0),
+        ];
+        for variant in 0..3u8 {
+            for (sources, silent) in [(&normal_sources[..], false), (&silent_sources[..], true)] { for source in sources { for (site, m_normal, m_silent) in use_sites {
+                let src = format!("{{% set ns = namespace() %}}{}", site.replace('U', source));
+                let fails = if silent { *m_silent } else { *m_normal };
+                let mut outs: Vec<Option<String>> = Vec::new();
+                for (mi, m) in modes.iter().enumerate() {
+                    let mut env = Environment::new();
+                    env.set_undefined_behavior(*m);
+                    match variant {
+                        1 => env.set_formatter(|out, state, value| crate::defaults::escape_formatter(out, state, value)),
+                        2 => env.set_auto_escape_callback(|_| crate::AutoEscape::Html),
+                        _ => {}
+                    }
+                    let r = env.render_named_str("u.txt", &src, crate::context! { other => crate::context! { a => 1 } });
+                    let should_fail = fails & (1 << mi) != 0;
+                    match &r {
+                        Ok(o) => assert!(!should_fail, "{src} (env variant {variant}) must fail under {m:?} but rendered {o:?}"),
+                        Err(e) => assert!(should_fail, "{src} (env variant {variant}) must not fail under {m:?}: {e}"),
+                    }
+                    outs.push(r.ok());
+                }
+                for i in 0..4 { for j in i..4 {
+                    if let Some(a) = &outs[i] { match &outs[j] { Some(b) => assert!(a == b, "{src}: output differs between modes"), None => panic!("{src}: weaker mode failed") } }
+                }}
+            }}}
         }
     }
